@@ -15,6 +15,7 @@ package main
 import (
 	"bytes"
 	"fmt"
+	"os"
 	"sort"
 	"time"
 
@@ -152,6 +153,7 @@ func exec(a []string) string {
 	if len(a) < 2 || a[0] != "frag4" {
 		return "bad-op"
 	}
+	guard()
 	switch a[1] {
 	case "in":
 		if len(a) != 11 && len(a) != 12 {
@@ -402,6 +404,19 @@ func monitorDiscard(ts int64, n int) {
 	if n > 0 {
 		lib.Nontrivial()
 	}
+}
+
+var watchdog *time.Timer
+
+// guard: a hang inside the real code kills the adapter (reported by ./check as a crash).
+func guard() {
+	if watchdog != nil {
+		watchdog.Stop()
+	}
+	watchdog = time.AfterFunc(60*time.Second, func() {
+		fmt.Fprintln(os.Stderr, "fatal error: watchdog: operation hangs")
+		os.Exit(3)
+	})
 }
 
 func trunc(s string) string {
